@@ -95,3 +95,52 @@ package kmip
 //@   ghost itemErrStatus = bi.ResultStatus
 //@   ghost itemErrReason = bi.ResultReason
 //@   ghost itemErrMsg = bi.ResultMessage
+
+// ---------------------------------------------------------------------------
+// key accessors (C14): an EC private scalar handed to the standard library fits the curve.
+// x509.MarshalPKCS8PrivateKey serialises the scalar of an ECDSA key with big.Int.FillBytes into a buffer of the
+// byte length of the group order and panics when it does not fit; the parsers of crypto/x509 only return keys
+// whose scalar fits. These standard-library contracts are assumed (extern), their pre-conditions are
+// obligations of the accessors.
+
+//@ spec scalarFits(k *ecdsa.PrivateKey) bool = k != nil && k.D != nil && len(bigmag(k.D)) <= curvebytes(k.PublicKey.Curve)
+
+//@ extern crypto/x509.MarshalPKCS8PrivateKey
+//@   params key
+//@   requires typeis(key, *ecdsa.PrivateKey) ==> scalarFits(dyn(key, *ecdsa.PrivateKey))
+//@   pure
+
+//@ extern crypto/x509.ParseECPrivateKey
+//@   params der
+//@   results r0, r1
+//@   ensures r1 == nil ==> scalarFits(r0)
+//@   pure
+
+//@ extern crypto/x509.ParsePKCS8PrivateKey
+//@   params der
+//@   results r0, r1
+//@   ensures r1 == nil && typeis(r0, *ecdsa.PrivateKey) ==> scalarFits(dyn(r0, *ecdsa.PrivateKey))
+//@   pure
+
+//@ extern (*math/big.Int).Cmp
+//@   recv x
+//@   params y
+//@   results r0
+//@   requires x != nil && y != nil
+//@   ensures r0 == -1 || r0 == 0 || r0 == 1
+//@   ensures r0 < 0 && bigsign(x) >= 0 ==> len(bigmag(x)) <= len(bigmag(y))
+//@   pure
+
+//@ iface elliptic.Curve.Params
+//@   recv c
+//@   results r0
+//@   ensures r0 != nil && r0.N != nil && bigsign(r0.N) == 1 && len(bigmag(r0.N)) == curvebytes(c)
+//@   pure
+
+//@ func (*PrivateKey).ECDSA
+//@   requires key != nil
+//@   ensures r1 == nil ==> scalarFits(r0)
+
+//@ func (*PrivateKey).CryptoPrivateKey
+//@   requires key != nil
+//@   ensures r1 == nil && typeis(r0, *ecdsa.PrivateKey) ==> scalarFits(dyn(r0, *ecdsa.PrivateKey))
